@@ -9,6 +9,8 @@ of steps = iterations with ANY environment (clock advances, at most one datagram
 All statements are proved by induction over the step list / the handler list / the datagram nesting.
 -/
 import GeckoModel.Proofs.ThreadedHandshake
+import GeckoModel.Proofs.Coop
+import GeckoModel.Generated.Skeletons
 
 namespace GeckoModel.C20
 open GeckoModel GeckoModel.Generated GeckoModel.Threaded
@@ -781,3 +783,50 @@ example : evsCost [Ev.seg (simSeg C01.exSpa 3 78 0), Ev.timeout] = 1 := by decid
 example : ((HS.init (List.replicate 100 0) 1).run (List.replicate 100 0) 1 3 [.timeout, .timeout, .svers]).stage = .stalled := by decide
 
 end GeckoModel.C20
+
+/-! ### the lists and counters the engine thread shares with its callers
+
+`engineIter` above steps ONE thread; the client's threads call `queue_send`, `add_receive_handler`, `remove_receive_handler` and
+the sequence counter concurrently with it.  Over the regenerated skeletons of every method of the socket that touches the two handler
+lists or the counters: each mutation happens between the method's own acquisition and release of `self._lock`
+(`alwaysHeld`, sound for every trace by `scan_accepts`), hence - `lock_mutex`, for ANY number of threads and ANY pre-emptive
+interleaving that respects the lock - every mutation in the global trace is made by the thread that holds the lock. -/
+namespace GeckoModel.C20.Locking
+open GeckoModel.Coop GeckoModel.Generated.Skeletons
+
+def acq (a : A) : Bool := a.kind == .acquired && a.name == "self._lock"
+def rel (a : A) : Bool := a.kind == .release && a.name == "self._lock"
+
+/-- a mutation of a handler list or of a sequence counter -/
+def mutates (a : A) : Bool :=
+  (a.kind == .call && (a.name == "self._receive_handlers.append" || a.name == "self._receive_handlers.remove" ||
+                        a.name == "self._send_handlers.append" || a.name == "self._send_handlers.pop")) ||
+  (a.kind == .set && (a.name == "self._receive_handlers" || a.name == "self._send_handlers" ||
+                       a.name == "self._sequence_counter_command" || a.name == "self._sequence_counter_protocol"))
+
+def engineMethods : List Sk :=
+  [sk_driver_udp_socket__GeckoUdpSocket_add_receive_handler, sk_driver_udp_socket__GeckoUdpSocket_remove_receive_handler,
+   sk_driver_udp_socket__GeckoUdpSocket_queue_send, sk_driver_udp_socket__GeckoUdpSocket_get_and_increment_sequence_counter,
+   sk_driver_udp_socket__GeckoUdpSocket__process_send_requests, sk_driver_udp_socket__GeckoUdpSocket_dispatch_recevied_data,
+   sk_driver_udp_socket__GeckoUdpSocket__cleanup_handlers]
+
+theorem shared_state_mutated_under_the_lock : ∀ sk ∈ engineMethods, alwaysHeld acq rel mutates sk = true := by decide +kernel
+
+/-- **for any number of threads, any calls, any pre-emptive interleaving that respects the lock**: every mutation of the handler
+lists and of the counters is made by the thread holding `self._lock` -/
+theorem shared_state_mutually_exclusive (task : Nat → Sk) (h : ∀ j, task j ∈ engineMethods)
+    (locals : Nat → List Coop.Ev) (hrun : ∀ j, ∃ o, Coop.Run (task j) (locals j) o) (g : List (Nat × Coop.Ev)) (hi : Coop.Inter locals g)
+    (hl : LockRespecting acq rel none g) : InnerByHolder acq rel mutates none g :=
+  lock_mutex_of_skeletons acq rel mutates task (fun j => shared_state_mutated_under_the_lock _ (h j)) locals hrun g hi hl
+
+/-- non-vacuity: the methods do mutate (five list operations, one list replacement, four counter assignments) and do lock -/
+example : (engineMethods.flatMap fun sk => (actions .call sk).filter fun n => mutates ⟨.call, n⟩).length = 4 ∧
+    (engineMethods.flatMap fun sk => (actions .set sk).filter fun n => mutates ⟨.set, n⟩).length = 5 ∧
+    (engineMethods.all fun sk => (actions .acquired sk).contains "self._lock") = true := by decide +kernel
+
+/-- non-vacuity: an append outside the `with self._lock:` block is rejected -/
+example : alwaysHeld acq rel mutates
+    (.seq (.ev (.act ⟨.acquired, "self._lock"⟩)) (.seq (.ev (.act ⟨.release, "self._lock"⟩))
+      (.ev (.act ⟨.call, "self._send_handlers.append"⟩)))) = false := by decide +kernel
+
+end GeckoModel.C20.Locking
